@@ -20,7 +20,7 @@ type ordLoop struct {
 	blocks map[*ssa.BasicBlock]bool
 	header *ssa.BasicBlock // nil for yield closures
 	yield  bool
-	src    string    // description of the unordered source
+	src    string // description of the unordered source
 	pos    token.Pos
 	key    ssa.Value // loop key / element values
 	val    ssa.Value
